@@ -157,7 +157,11 @@ MemCollect(t) ==
     /\ pc' = "per_" \o t
     /\ UNCHANGED <<mode, cfg, disk, toldB, node, cur, pend, refeed, n, crashes, trestarts, refNode, refMem, rec>>
 
-(* Service.Collect, second half: one Bolt commit. *)
+(* Service.Collect, second half: one Bolt commit.  `disk` is a function, so the put /   *)
+(* delete of (t, id) touches exactly that key; the code's Bolt.delete works on a        *)
+(* key-ordered bucket with a cursor seek, which is why the drivers use IDs and topic    *)
+(* names that are proper prefixes of each other (a / ab, S / S_high, main:t1 /          *)
+(* main:t1:alert2) and collect OK for IDs that have no stored state.                    *)
 Persist(t) ==
     /\ pc = "per_" \o t
     /\ disk' = [disk EXCEPT ![t][cur.id] = IF cur.lvl = 0 THEN Absent ELSE cur.lvl]
